@@ -49,8 +49,9 @@ theorem C06_bin_inv (opt : Bool) (data : Bytes) (toks : Tape) (h : parse opt dat
 /-- **Objects are what they say** (the theorem behind the L3 oracle `bin-tape-object-pairs`).  For every
 accepted input and both parser variants the tape is a sequence of good items (`GSeq`, Proofs/BinTapePairs.lean):
 plain tokens, arrays of good items, and objects whose body — up to its first `MixedContainer` marker, or
-its end — is a sequence of `key value` pairs, every key a plain token that is not a container start, an
-`End` or the marker (`Body … K`/`M` at the close; a body ending in a key without a value, phase `V`, is
+its end — is a sequence of `key value` pairs, every key a scalar / id token (`isKey`: not a container start,
+an `End`, the marker, an `Equal` or an `Rgb`), every plain value not the marker and not an `Equal` (`isVal`;
+the parser pushes `Equal` and the marker only behind a marker resp. in key position) (`Body … K`/`M` at the close; a body ending in a key without a value, phase `V`, is
 excluded), values plain tokens or good containers, and behind a marker any good items.
 Proved as an invariant of the loop (`GInv`: the chain of open containers, each open object with its body
 phase, coupled to the parser state; `step_ginv`).  This is NOT implied by `WfBinTape` (which only speaks of
@@ -83,10 +84,10 @@ theorem Body.parity : ∀ {l : Tape} {ph : Phase}, Body l ph → (∀ x ∈ l, x
   | _, _, .valCont _ hc, hk => by
     obtain ⟨l', i, rfl⟩ := hc.last_end
     have := hk (.end_ i) (by simp)
-    simp [BTok.isKey, BTok.isPlain] at this
+    simp [BTok.isKey, BTok.isVal, BTok.isPlain] at this
   | _, _, .mixed _, hk => by
     have := hk .mixed (by simp)
-    simp [BTok.isKey] at this
+    simp [BTok.isKey, BTok.isVal] at this
   | _, _, .afterPlain hb _, hk => by
     have := Body.parity hb (fun x hx => hk x (by simp [hx]))
     exact absurd rfl this.2.2
